@@ -199,6 +199,7 @@ def gen_d(rng, sc, tier):
     ctrl = [send(rc.socks5_greeting([2])), op("recv_n", n=2, label="method"), send(rc.socks5_userpass(b"alice", b"s3cret")), op("recv_n", n=2, label="authstatus"),
             send(rc.socks5_request(3, decl[0], decl[1])), op("recv_socks5_reply", label="reply"), op("set", flag="assoc"), op("recv_eof", timeout_ms=6000, label="ctl-eof", on_fail="continue")]
     sc.actors.append({"kind": "tcp_client", "id": "ctl", "src": owner_ip, "dst": li["addr"], "start_ms": 50, "ops": ctrl})
+    ctl_index = len(sc.actors) - 1
     own_first = rng.random() < 0.4
     t_owner = rng.choice([0, 300]) if own_first else rng.choice([400, 1500])
     t_stranger = rng.choice([500, 900]) if own_first else rng.choice([0, 1, 100])
@@ -208,6 +209,20 @@ def gen_d(rng, sc, tier):
     sc.actors.append({"kind": "udp", "id": "ustranger", "bind": "%s:%d" % (stranger_ip, rng.choice([7001, 7777])), "start_ms": 50,
                       "ops": [op("wait", flag="assoc", timeout_ms=5000), op("sleep", ms=t_stranger)] +
                              [x for _ in range(rng.choice([1, 3])) for x in (op("send", to="socks5reply:ctl", hex=rc.socks5_udp_wrap(oip, oport, theirs).hex()), op("sleep", ms=50))] + [op("sleep", ms=3000)]})
+    # round 9: in a third of the plans the control connection itself presents wrong credentials and asks for the association all the same (derived from a
+    # value already drawn, so the other plans of a seed stay what they were); nothing of either sender may then reach the destination
+    badcred = int(mine[7:15], 16) % 3 == 0
+    if badcred:
+        wrong = [(b"alice", b"wrong"), (b"mallory", b"s3cret"), (b"alice", b"")][int(mine[7:15], 16) % 7 % 3]
+        c = dict(on_fail="continue", timeout_ms=3000)
+        sc.actors[ctl_index]["ops"] = [send(rc.socks5_greeting([2]), on_fail="continue"), op("recv_n", n=2, label="method", **c), send(rc.socks5_userpass(*wrong), on_fail="continue"),
+                                       op("recv_n", n=2, label="authstatus", **c), send(rc.socks5_request(3, decl[0], decl[1]), on_fail="continue"),
+                                       op("recv_socks5_reply", label="reply", **c), op("set", flag="assoc"), op("recv_eof", timeout_ms=6000, label="ctl-eof", on_fail="continue")]
+        for a in sc.actors[ctl_index + 1:]:
+            for o in a["ops"]:
+                if o.get("op") == "send":
+                    o["on_fail"] = "continue"
+    sc.meta.update({"badcred": badcred})
     sc.meta.update({"part": "d", "enforce": enforce, "declared": declared, "own_first": own_first, "mine": mine.hex(), "theirs": theirs.hex(),
                     "cls": "d/enf%d/%s/%s" % (enforce, declared, "owner-first" if own_first else "stranger-first"), "cfgkey": "d/%d/%s/%d/%d/%d" % (enforce, declared, own_first, t_owner, t_stranger)})
     sc.cfg["timeouts"] = {"idle": 10, "udp": 10}
@@ -302,6 +317,11 @@ def oracle(plan, out):
     if meta["part"] == "d":
         got = [bytes.fromhex(r["hex"]) for r in R.records if r.get("actor") == "uorigin" and r.get("udp") == "recv"]
         theirs = bytes.fromhex(meta["theirs"])
+        if meta.get("badcred"):
+            if got:
+                v("association-without-credentials", "d", "the control connection presented wrong credentials and asked for UDP ASSOCIATE; %d datagrams were forwarded to the destination (%s)" % (
+                    len(got), got[0][:30].hex()))
+            return V
         if any(theirs in g for g in got):
             v("forwarded-for-unauthenticated-peer", meta["cls"], "a peer that never authenticated (another host than the association's owner) sent a datagram to the relay port of an "
               "authenticated UDP association%s: it was forwarded to the destination" % (" (enforceUdpClient on, the owner declared %s)" % meta["declared"] if meta["enforce"] else ""))
